@@ -1,0 +1,139 @@
+//go:build verif
+
+package nebula
+
+// Verification hooks for the `inside` correspondence engine (outbound packet path, property C17).
+// Thin exported wrappers only, no behaviour: an Interface is wired from the same constructors the program uses
+// (newCertState for the own-address tables, newHostMap, NewHandshakeManager) around a caller-supplied firewall,
+// tun queue, overlay device and udp writer, without sockets or goroutines, so that the harness can run
+// consumeInsidePacket on one packet and read what came out.
+
+import (
+	"log/slog"
+	"net/netip"
+	"slices"
+	"sort"
+
+	"github.com/rcrowley/go-metrics"
+	"github.com/slackhq/nebula/cert"
+	"github.com/slackhq/nebula/config"
+	"github.com/slackhq/nebula/firewall"
+	"github.com/slackhq/nebula/noiseutil"
+	"github.com/slackhq/nebula/overlay"
+	"github.com/slackhq/nebula/overlay/batch"
+	"github.com/slackhq/nebula/overlay/tio"
+	"github.com/slackhq/nebula/udp"
+)
+
+// VerifInsideForwardToSelf is the build constant immediatelyForwardToSelf.
+const VerifInsideForwardToSelf = immediatelyForwardToSelf
+
+type VerifInside struct {
+	F *Interface
+}
+
+// VerifInsideNew wires an Interface for the node holding certificate `my` (own-address, own-network and broadcast
+// tables come from newCertState, as in NewInterface).
+func VerifInsideNew(l *slog.Logger, my cert.Certificate, fw *Firewall, caPool *cert.CAPool, tun overlay.Device, queue tio.Queue,
+	writer udp.Conn, dropLocalBroadcast, dropMulticast bool) (*VerifInside, error) {
+	cs, err := newCertState(cert.Version2, nil, my, false, cert.Curve_CURVE25519, []byte{}, "aes")
+	if err != nil {
+		return nil, err
+	}
+	hm := newHostMap(l)
+	pr := []netip.Prefix{}
+	hm.preferredRanges.Store(&pr)
+	lh := &LightHouse{l: l, addrMap: map[netip.Addr]*RemoteList{}, queryChan: make(chan netip.Addr, 10), amLighthouse: true}
+	lighthouses := []netip.Addr{}
+	staticList := map[netip.Addr]struct{}{}
+	lh.localAddrsFn = func(*LocalAllowList) []netip.Addr { return nil }
+	lh.lighthouses.Store(&lighthouses)
+	lh.staticList.Store(&staticList)
+	hs := NewHandshakeManager(l, hm, lh, writer, defaultHandshakeConfig)
+	conf := config.NewC(l)
+	cm := newConnectionManagerFromConfig(l, conf, hm, NewPunchyFromConfig(l, conf, writer))
+	pki := &PKI{l: l}
+	pki.cs.Store(cs)
+	pki.caPool.Store(caPool)
+	f := &Interface{
+		pki:                   pki,
+		hostMap:               hm,
+		outside:               writer,
+		inside:                tun,
+		firewall:              fw,
+		handshakeManager:      hs,
+		lightHouse:            lh,
+		dropLocalBroadcast:    dropLocalBroadcast,
+		dropMulticast:         dropMulticast,
+		routines:              1,
+		writers:               []udp.Conn{writer},
+		queues:                []tio.Queue{queue},
+		myVpnNetworks:         cs.myVpnNetworks,
+		myVpnNetworksTable:    cs.myVpnNetworksTable,
+		myVpnAddrs:            cs.myVpnAddrs,
+		myVpnAddrsTable:       cs.myVpnAddrsTable,
+		myBroadcastAddrsTable: cs.myVpnBroadcastAddrsTable,
+		connectionManager:     cm,
+		metricTxDropped:       metrics.NewCounter(),
+		cachedPacketMetrics:   &cachedPacketMetrics{sent: metrics.NewCounter(), dropped: metrics.NewCounter()},
+		l:                     l,
+	}
+	hs.f = f
+	cm.intf = f
+	return &VerifInside{F: f}, nil
+}
+
+// AddTunnel completes `h` (a HostInfo carrying the peer certificate and networks, e.g. from VerifFwHost) into an
+// established tunnel with the given send cipher, indexes and underlay address, and registers it in the main hostmap
+// the way the handshake manager does (unlockedAddHostInfo under the lock).
+func (v *VerifInside) AddTunnel(h *HostInfo, eKey noiseutil.CipherState, localIndex, remoteIndex uint32, remote netip.AddrPort, counter uint64) {
+	h.ConnectionState.eKey = eKey
+	h.ConnectionState.messageCounter.Store(counter)
+	h.localIndexId = localIndex
+	h.remoteIndexId = remoteIndex
+	h.remote.Store(&remote)
+	h.HandshakePacket = map[uint8][]byte{}
+	h.relayState = RelayState{relayForByAddr: map[netip.Addr]*Relay{}, relayForByIdx: map[uint32]*Relay{}}
+	v.F.hostMap.Lock()
+	v.F.hostMap.unlockedAddHostInfo(h, v.F)
+	v.F.hostMap.Unlock()
+}
+
+// StartHandshake is HandshakeManager.StartHandshake(a, nil): a pending handshake for a.
+func (v *VerifInside) StartHandshake(a netip.Addr) { v.F.handshakeManager.StartHandshake(a, nil) }
+
+// Consume is one iteration of listenIn for one plain IP packet read from the tun device (as VerifHsmNode.Inside),
+// with the routine-local conntrack cache the caller hands in.
+func (v *VerifInside) Consume(pkt []byte, localCache firewall.ConntrackCache) {
+	sb := batch.NewSendBatch(v.F.writers[0], batch.SendBatchCap, batch.SendBatchCap*(udp.MTU+32))
+	v.F.consumeInsidePacket(tio.Packet{Bytes: pkt}, &firewall.ParsedPacket{}, make([]byte, 12, 12), sb, make([]byte, mtu), 0, localCache)
+	v.F.flushSendBatch(sb, 0)
+}
+
+// VerifInsidePending is one pending handshake: its overlay address and the packets cached on it.
+type VerifInsidePending struct {
+	Addr    netip.Addr
+	Packets [][]byte
+}
+
+// Pending lists the pending handshakes sorted by address.
+func (v *VerifInside) Pending() []VerifInsidePending {
+	hm := v.F.handshakeManager
+	hm.RLock()
+	defer hm.RUnlock()
+	var out []VerifInsidePending
+	for a, hh := range hm.vpnIps {
+		hh.Lock()
+		p := VerifInsidePending{Addr: a}
+		for _, c := range hh.packetStore {
+			p.Packets = append(p.Packets, slices.Clone(c.packet))
+		}
+		hh.Unlock()
+		out = append(out, p)
+	}
+	sort.Slice(out, func(i, j int) bool { return out[i].Addr.Less(out[j].Addr) })
+	return out
+}
+
+// VerifInsideCounter reads the tunnel's message counter.
+func VerifInsideCounter(h *HostInfo) uint64 { return h.ConnectionState.messageCounter.Load() }
